@@ -5,8 +5,12 @@
 (*                                                                             *)
 (* Events (one JSON object per line):                                          *)
 (*   reset                                   new world, a new segment starts   *)
-(*   begin  pop cur cnt rev m                an iteration starts on a space    *)
-(*            whose population is `pop`; m = positions matching MATCH          *)
+(*   begin  pop cur cnt rev m pn             an iteration starts on a space    *)
+(*            whose population is `pop`; m = positions matching MATCH; pn =    *)
+(*            the pattern contains a 0x00 byte, which the glob library cannot  *)
+(*            express: such an iteration may be REFUSED (first page = an error *)
+(*            reply without elements) or answered with exactly the subset m -  *)
+(*            never with anything else                                         *)
 (*   write  op ("add" | "rem") p             a write to the scanned space      *)
 (*            between two pages (writes to other spaces are not logged: the    *)
 (*            specification's pages do not depend on them - NothingForeign)    *)
@@ -18,14 +22,16 @@
 (* <<"MISMATCH", line, expected>> and the rest of the segment is skipped.      *)
 EXTENDS ZScan, Json, IOUtils, TLC
 
-VARIABLES l, bad
+VARIABLES l, bad,
+          pn,       \* the running iteration's pattern contains 0x00
+          refused   \* the running iteration was refused with an error reply
 
 Trace == ndJsonDeserialize(IOEnv.ZR_TRACE)
 E == Trace[l]
 
-tvars == <<pop, foreign, it, l, bad>>
+tvars == <<pop, foreign, it, l, bad, pn, refused>>
 
-TInit == pop = {} /\ foreign = {} /\ it = NoIter /\ l = 1 /\ bad = FALSE
+TInit == pop = {} /\ foreign = {} /\ it = NoIter /\ l = 1 /\ bad = FALSE /\ pn = FALSE /\ refused = FALSE
 
 
 \* what the specification would have answered (reference page), for the report
@@ -39,35 +45,42 @@ Expected ==
 
 Mismatch == /\ bad' = TRUE
             /\ PrintT(<<"MISMATCH", l, Expected>>)
-            /\ UNCHANGED <<pop, foreign, it>>
+            /\ UNCHANGED <<pop, foreign, it, pn, refused>>
 
-Keep == UNCHANGED <<pop, foreign, it, bad>>
+Keep == UNCHANGED <<pop, foreign, it, bad, pn, refused>>
 
 TNext ==
   /\ l <= Len(Trace)
   /\ l' = l + 1
   /\ IF E.ev = "reset" THEN pop' = {} /\ foreign' = {} /\ it' = NoIter /\ bad' = FALSE
+                             /\ pn' = FALSE /\ refused' = FALSE
      ELSE IF bad THEN Keep
      ELSE CASE E.ev = "begin" ->
                  /\ pop' = ToSet(E.pop)
                  /\ it' = NewIter(ToSet(E.pop), E.cur, E.cnt, E.rev, ToSet(E.m))
+                 /\ pn' = E.pn /\ refused' = FALSE
                  /\ UNCHANGED <<foreign, bad>>
             [] E.ev = "write" ->
                  IF E.op = "add" /\ E.p \notin pop
-                 THEN Add(E.p) /\ UNCHANGED bad
+                 THEN Add(E.p) /\ UNCHANGED <<bad, pn, refused>>
                  ELSE IF E.op = "rem" /\ E.p \in pop
-                 THEN Rem(E.p) /\ UNCHANGED bad
+                 THEN Rem(E.p) /\ UNCHANGED <<bad, pn, refused>>
                  ELSE Mismatch
             [] E.ev = "page" ->
-                 IF /\ it.active /\ ~it.done /\ E.err = ""
+                 IF /\ it.active /\ ~it.done /\ ~refused /\ E.err = ""
                     /\ PageOK(pop, foreign, it.m, it.cur, it.cnt, it.rev, E.els, E.next)
                  THEN /\ it' = AfterPage(it, E.els, E.next)
-                      /\ UNCHANGED <<pop, foreign, bad>>
+                      /\ UNCHANGED <<pop, foreign, bad, pn, refused>>
+                 ELSE IF /\ it.active /\ pn /\ it.pages = 0 /\ ~refused
+                         /\ E.err # "" /\ E.els = <<>> /\ E.next = 0
+                 THEN refused' = TRUE /\ UNCHANGED <<pop, foreign, it, bad, pn>>
                  ELSE Mismatch
             [] E.ev = "end" ->
                  \* iteration-level properties on the reconstructed state
-                 IF it.active /\ it.done /\ ~E.capped /\ IterOK
-                 THEN it' = NoIter /\ UNCHANGED <<pop, foreign, bad>>
+                 IF /\ it.active /\ ~E.capped
+                    /\ \/ refused /\ it.pages = 0
+                       \/ ~refused /\ it.done /\ IterOK
+                 THEN it' = NoIter /\ pn' = FALSE /\ refused' = FALSE /\ UNCHANGED <<pop, foreign, bad>>
                  ELSE Mismatch
             [] OTHER -> Mismatch
 
